@@ -29,7 +29,7 @@ PANIC_FN = re.compile(r"(^|::)(panicking::|rt::begin_panic|option::unwrap_failed
 
 class Obl:
     """one potential panic origin"""
-    __slots__ = ("block", "cls", "ok", "rule", "desc", "line", "file", "lift", "what", "trust", "dirty")
+    __slots__ = ("block", "cls", "ok", "rule", "desc", "line", "file", "lift", "what", "trust", "dirty", "raw")
 
     def __init__(self, block, cls, ok, rule, desc, line, file, what, lift=None, trust=None):
         self.block = block
@@ -43,6 +43,7 @@ class Obl:
         self.lift = lift
         self.trust = trust
         self.dirty = frozenset()
+        self.raw = None        # unproven constraints as instantiated at this point (for the trust rules)
 
 
 class Result:
